@@ -93,7 +93,12 @@ def build(case, rng=None):
                 addr += iv.get("gap", 0)
             toks = lst.secs[si][ii]
             contents = b"".join(t.data for t in toks if t.t in "ID")
-            bi = gtirb.ByteInterval(contents=contents, address=addr)
+            if iv.get("uninit"):
+                bi = gtirb.ByteInterval(
+                    contents=contents[:len(contents) - iv["uninit"]],
+                    size=len(contents), address=addr)
+            else:
+                bi = gtirb.ByteInterval(contents=contents, address=addr)
             bi.section = gs
             ivl.append(bi)
             # blocks
